@@ -88,13 +88,15 @@ def coq_files():
 
 
 def coq_prepare(generators=None):
-    """regenerate tables + Makefile.  Returns (ok, log)."""
+    """regenerate tables (None = all generators, [] = none) + Makefile.  Returns (ok, log)."""
     log = []
-    cmd = [sys.executable, os.path.join(ROOT, "tools", "gen_tables.py")] + list(generators or [])
-    rc, out = sh(cmd, timeout=300)
-    log.append(out)
-    if rc != 0:
-        return False, "\n".join(log)
+    # generators: None = every generator in tools/gen; [] = none; [names] = those
+    if generators is None or len(generators) > 0:
+        cmd = [sys.executable, os.path.join(ROOT, "tools", "gen_tables.py")] + list(generators or [])
+        rc, out = sh(cmd, timeout=600)
+        log.append(out)
+        if rc != 0:
+            return False, "\n".join(log)
     files = coq_files()
     proj = "-Q . S4\n" + "\n".join(files) + "\n"
     pp = os.path.join(COQ, "_CoqProject")
